@@ -143,85 +143,88 @@ def sem_tag(m: M, ns: NsMap, el: Node, tag: OptSelTag) -> bool:
 # ---------------------------------------------------------------------------------------------- sub-matchers whose
 # meaning is specified elsewhere (or, where marked, only bounded): the hub contract is modular in them
 
+from spec import css_ref as _ref   # noqa: E402  executable bodies of the SMT-abstract sub-specs
+
+
 @abstract
 def sem_defined(m: M, el: Node) -> bool:
-    return True
+    return _ref.sem_defined(m, el)
 
 
 @abstract
 def sem_root(m: M, el: Node) -> bool:
-    return True
+    return _ref.sem_root(m, el)
 
 
 @abstract
 def sem_placeholder(m: M, el: Node) -> bool:
-    return True
+    return _ref.sem_placeholder(m, el)
 
 
 @abstract
 def sem_nth(m: M, ns: NsMap, ifr: bool, el: Node, nth: SeqSelNth) -> bool:
-    return True
+    return _ref.sem_nth(m, ns, ifr, el, nth, sem_list)
 
 
 @abstract
 def sem_empty(m: M, el: Node) -> bool:
-    return True
+    return _ref.sem_empty(m, el)
 
 
 @abstract
 def sem_ids(m: M, el: Node, ids: SeqStr) -> bool:
-    return True
+    return _ref.sem_ids(m, el, ids)
 
 
 @abstract
 def sem_classes(m: M, el: Node, classes: SeqStr) -> bool:
-    return True
+    return _ref.sem_classes(m, el, classes)
 
 
 @abstract
 def sem_attrs(m: M, ns: NsMap, el: Node, attrs: SeqSelAttr) -> bool:
-    return True
+    return _ref.sem_attrs(m, ns, el, attrs)
 
 
 @abstract
 def sem_range(m: M, el: Node, cond: Flags) -> bool:
-    return True
+    return _ref.sem_range(m, el, cond)
 
 
 @abstract
 def sem_lang(m: M, el: Node, langs: SeqSelLang) -> bool:
-    return True
+    return _ref.sem_lang(m, el, langs)
 
 
 @abstract
 def sem_default(m: M, el: Node) -> bool:
-    return True
+    return _ref.sem_default(m, el)
 
 
 @abstract
 def sem_indeterminate(m: M, el: Node) -> bool:
-    return True
+    return _ref.sem_indeterminate(m, el)
 
 
 @abstract
 def sem_dir(m: M, el: Node, d: Flags) -> bool:
-    return True
+    return _ref.sem_dir(m, el, d)
 
 
 @abstract
 def sem_contains(m: M, el: Node, contains: SeqSelContains) -> bool:
-    return True
+    return _ref.sem_contains(m, el, contains)
 
 
 @abstract
 def tag_desc(m: M, el: Node, no_iframe: bool) -> SeqNode:
     """Tag descendants of el in document order (not descending into iframes when no_iframe)."""
-    return None
+    return _ref.tag_desc(m, el, no_iframe)
 
 
 @abstract
 def tag_children(m: M, el: Node, no_iframe: bool) -> SeqNode:
-    return None
+    return _ref.tag_children(m, el, no_iframe)
 
 
 # ---------------------------------------------------------------------------------------------- lists, compounds
